@@ -44,8 +44,9 @@ BRIDGE_FUNCS = {
     "C08": ["address_resolve"],
     "C11": ["to_valid_filename", "to_valid_module_name"],
     "C12": ["to_snake_case", "to_valid_module_name"],
-    "C15": ["to_snake_case"],
-    "C20": ["is_list_item", "get_subsequent_line_indentation_level"],
+    "C14": ["coerce_response_name"],
+    "C15": ["to_snake_case", "make_private"],
+    "C20": ["is_list_item", "get_subsequent_line_indentation_level", "fix_whitespace"],
 }
 
 
